@@ -8,7 +8,7 @@ CONSTANTS
   WIds = {2, 3, 4}
   LMode = "mixed"
   ECodes = {0, 1, 1500}
-  TCodes = {11,12,21,33}
+  TCodes = {11,12,31}
   QuadIds = {2}
   ClampE = 15
   SlackE = 14
